@@ -112,6 +112,55 @@ theorem explicitReal_some {i : Nat} {l : Layer} {q : Path} {n : Node} (h : expli
   simp at hp
   exact ⟨e, by simpa using hm, hp.1, hp.2, rfl⟩
 
+theorem implied_split (l : Layer) (q : Path) : impliedDir l q = (realImplied l q || whImplied l q) := by
+  unfold impliedDir realImplied whImplied
+  induction l with
+  | nil => rfl
+  | cons e l ih => simp only [List.any_cons, ih]; cases e.wh <;> cases isUnder q e.p <;> simp
+
+/-- case analysis of one step of the visibility rule -/
+theorem visible_step (i : Nat) (l : Layer) (ls : List (Nat × Layer)) (q : Path) (n : Node)
+    (h : visible ((i, l) :: ls) q = some n) :
+    (explicitReal i l q = some n) ∨
+    (explicitReal i l q = none ∧ realImplied l q = true ∧ n = implDir i) ∨
+    (explicitReal i l q = none ∧ realImplied l q = true ∧ covers l q = false ∧ visible ls q = some n ∧ n.kind = .dir) ∨
+    (explicitReal i l q = none ∧ realImplied l q = false ∧ covers l q = false ∧ visible ls q = some n) ∨
+    (explicitReal i l q = none ∧ realImplied l q = false ∧ covers l q = false ∧ visible ls q = none ∧
+      whImplied l q = true ∧ n = implDir i) := by
+  rw [visible.eq_2] at h
+  cases hx : explicitReal i l q with
+  | some m => rw [hx] at h; left; simpa using h
+  | none =>
+    rw [hx] at h
+    simp only at h
+    right
+    by_cases hr : realImplied l q = true
+    · rw [if_pos hr] at h
+      by_cases hc : covers l q = true
+      · simp [hc] at h; left; exact ⟨rfl, hr, h.symm⟩
+      · have hcf : covers l q = false := by cases hh : covers l q <;> simp_all
+        simp only [hc, if_false] at h
+        cases hv : visible ls q with
+        | none => rw [hv] at h; simp at h; left; exact ⟨rfl, hr, h.symm⟩
+        | some m =>
+          rw [hv] at h
+          by_cases hk : m.kind = .dir
+          · simp [hk] at h; subst h; right; left; exact ⟨rfl, hr, hcf, rfl, hk⟩
+          · simp [hk] at h; left; exact ⟨rfl, hr, h.symm⟩
+    · have hrf : realImplied l q = false := by cases hh : realImplied l q <;> simp_all
+      rw [if_neg hr] at h
+      by_cases hc : covers l q = true
+      · simp [hc] at h
+      · have hcf : covers l q = false := by cases hh : covers l q <;> simp_all
+        simp only [hc, if_false] at h
+        cases hv : visible ls q with
+        | some m => rw [hv] at h; simp at h; subst h; right; right; left; exact ⟨rfl, hrf, hcf, rfl⟩
+        | none =>
+          rw [hv] at h
+          by_cases hwi : whImplied l q = true
+          · simp [hwi] at h; right; right; right; exact ⟨rfl, hrf, hcf, rfl, hwi, h.symm⟩
+          · simp [hwi] at h
+
 theorem visible_not_wh : ∀ (ls : List (Nat × Layer)) (q : Path) (n : Node), visible ls q = some n → n.wh = false := by
   intro ls
   induction ls with
@@ -119,31 +168,12 @@ theorem visible_not_wh : ∀ (ls : List (Nat × Layer)) (q : Path) (n : Node), v
   | cons x ls ih =>
     obtain ⟨i, l⟩ := x
     intro q n h
-    unfold visible at h
-    cases hx : explicitReal i l q with
-    | some m =>
-      rw [hx] at h; simp at h; subst h
-      obtain ⟨e, _, hw, _, rfl⟩ := explicitReal_some hx
-      exact hw
-    | none =>
-      rw [hx] at h
-      simp only at h
-      by_cases hi : impliedDir l q = true
-      · rw [if_pos hi] at h
-        cases hin : (if covers l q = true then none else visible ls q) with
-        | none => rw [hin] at h; simp at h; subst h; rfl
-        | some m =>
-          rw [hin] at h
-          by_cases hk : m.kind = .dir
-          · simp [hk] at h; subst h
-            by_cases hc : covers l q = true
-            · simp [hc] at hin
-            · simp [hc] at hin; exact ih q m hin
-          · simp [hk] at h; subst h; rfl
-      · rw [if_neg hi] at h
-        by_cases hc : covers l q = true
-        · simp [hc] at h
-        · simp [hc] at h; exact ih q n h
+    rcases visible_step i l ls q n h with hx | ⟨_, _, rfl⟩ | ⟨_, _, _, hv, _⟩ | ⟨_, _, _, hv⟩ | ⟨_, _, _, _, _, rfl⟩
+    · obtain ⟨e, _, hw, _, rfl⟩ := explicitReal_some hx; exact hw
+    · rfl
+    · exact ih q n hv
+    · exact ih q n hv
+    · rfl
 
 /-- a directory the rule finds at a path that no listed layer has a directory entry for is a made-up one -/
 theorem visible_dir_synthetic : ∀ (ls : List (Nat × Layer)) (q : Path) (n : Node),
@@ -155,36 +185,40 @@ theorem visible_dir_synthetic : ∀ (ls : List (Nat × Layer)) (q : Path) (n : N
     obtain ⟨i, l⟩ := x
     intro q n hno h hk
     have hno' : ∀ x ∈ ls, explicitDirAt x.2 q = false := fun x hx => hno x (by simp [hx])
-    unfold visible at h
-    cases hx : explicitReal i l q with
-    | some m =>
-      rw [hx] at h; simp at h; subst h
-      obtain ⟨e, he, hw, hp, rfl⟩ := explicitReal_some hx
+    rcases visible_step i l ls q n h with hx | ⟨_, _, rfl⟩ | ⟨_, _, _, hv, _⟩ | ⟨_, _, _, hv⟩ | ⟨_, _, _, _, _, rfl⟩
+    · obtain ⟨e, he, hw, hp, rfl⟩ := explicitReal_some hx
       have := hno (i, l) (by simp)
       unfold explicitDirAt at this
       rw [List.any_eq_false] at this
       have h' := this e he
       have hk' : e.kind = .dir := hk
       simp [hw, hp, hk'] at h'
-    | none =>
-      rw [hx] at h
-      simp only at h
-      by_cases hi : impliedDir l q = true
-      · rw [if_pos hi] at h
-        cases hin : (if covers l q = true then none else visible ls q) with
-        | none => rw [hin] at h; simp at h; subst h; rfl
-        | some m =>
-          rw [hin] at h
-          by_cases hk' : m.kind = .dir
-          · simp [hk'] at h; subst h
-            by_cases hc : covers l q = true
-            · simp [hc] at hin
-            · simp [hc] at hin; exact ih q m hno' hin hk'
-          · simp [hk'] at h; subst h; rfl
-      · rw [if_neg hi] at h
-        by_cases hc : covers l q = true
-        · simp [hc] at h
-        · simp [hc] at h; exact ih q n hno' h hk
+    · rfl
+    · exact ih q n hno' hv hk
+    · exact ih q n hno' hv hk
+    · rfl
+
+/-- whatever the rule finds at a path that no listed layer has an entry for is a made-up directory -/
+theorem visible_synthetic : ∀ (ls : List (Nat × Layer)) (q : Path) (n : Node),
+    (∀ x ∈ ls, explicitRealAt x.2 q = false) → visible ls q = some n → n.obs = .dir 0 := by
+  intro ls
+  induction ls with
+  | nil => intro q n _ h; simp [visible] at h
+  | cons x ls ih =>
+    obtain ⟨i, l⟩ := x
+    intro q n hno h
+    have hno' : ∀ x ∈ ls, explicitRealAt x.2 q = false := fun x hx => hno x (by simp [hx])
+    rcases visible_step i l ls q n h with hx | ⟨_, _, rfl⟩ | ⟨_, _, _, hv, _⟩ | ⟨_, _, _, hv⟩ | ⟨_, _, _, _, _, rfl⟩
+    · obtain ⟨e, he, hw, hp, rfl⟩ := explicitReal_some hx
+      have := hno (i, l) (by simp)
+      unfold explicitRealAt at this
+      rw [List.any_eq_false] at this
+      have h' := this e he
+      simp [hw, hp] at h'
+    · rfl
+    · exact ih q n hno' hv
+    · exact ih q n hno' hv
+    · rfl
 
 theorem impliedDir_of_mentioned_false {l : Layer} {q : Path} (h : mentionedBy l q = false) :
     impliedDir l q = false ∧ ∀ e ∈ l, e.p ≠ q := by
@@ -204,12 +238,11 @@ theorem visible_none_of_unmentioned : ∀ (ls : List (Nat × Layer)) (q : Path),
     obtain ⟨i, l⟩ := x
     intro q h
     obtain ⟨hi, ha⟩ := impliedDir_of_mentioned_false (h (i, l) (by simp))
-    unfold visible
-    rw [explicitReal_none_of_absent i ha]
-    simp only [hi]
-    by_cases hc : covers l q = true
-    · simp [hc]
-    · simp [hc]; exact ih q fun x hx => h x (by simp [hx])
+    rw [implied_split, Bool.or_eq_false_iff] at hi
+    rw [visible.eq_2, explicitReal_none_of_absent i ha]
+    simp only [hi.1, hi.2]
+    rw [ih q fun x hx => h x (by simp [hx])]
+    by_cases hc : covers l q = true <;> simp [hc]
 
 /-! ### the views -/
 
@@ -377,46 +410,72 @@ theorem view_gen (layers : List Layer) : ∀ (k : Nat) (later : List Layer) (v :
               have := hnoopq e he
               simp only [Bool.not_eq_true'] at this
               simp [hwh, this, hp]
+            rw [implied_split, Bool.or_eq_false_iff] at hi
             rw [visible.eq_2]
             rw [hx]
-            simp [hi, hc, obsOf, Node.obs, Entry.node, hwh]
+            simp [hi.1, hc, obsOf, Node.obs, Entry.node, hwh]
         · -- q is only implied by the layer
           rw [hm]
           have hx : explicitReal k l q = none := explicitReal_none_of_absent k habs
-          have hnoexp : ∀ x ∈ newestFirst layers k, explicitDirAt x.2 q = false := by
-            obtain ⟨e, he, hu⟩ := List.any_eq_true.mp (by unfold impliedDir at hi; exact hi)
-            have hmem : q ∈ parents e.p := (mem_parents e.p q).mpr ⟨hq, hu⟩
-            unfold noImplicitOverExplicitAt at himp
-            rw [List.all_eq_true] at himp
-            have h1 := himp e he
-            rw [List.all_eq_true] at h1
-            have h2 := h1 q hmem
-            have hnr : explicitRealAt l q = false := by
-              unfold explicitRealAt; rw [List.any_eq_false]
-              intro x hx'; simp [habs x hx']
-            simp only [hnr, Bool.false_or, List.all_eq_true, List.mem_map] at h2
-            intro x hx'
-            have := h2 x.2 ⟨x, hx', rfl⟩
-            simpa using this
+          have hnr : explicitRealAt l q = false := by
+            unfold explicitRealAt; rw [List.any_eq_false]
+            intro x hx'; simp [habs x hx']
+          obtain ⟨e, he, hu⟩ := List.any_eq_true.mp (by unfold impliedDir at hi; exact hi)
+          have hmem : q ∈ parents e.p := (mem_parents e.p q).mpr ⟨hq, hu⟩
+          unfold noImplicitOverExplicitAt at himp
+          rw [List.all_eq_true] at himp
+          have h1 := himp e he
+          rw [List.all_eq_true] at h1
+          have h2 := h1 q hmem
+          simp only [hnr, Bool.false_or, List.all_eq_true, List.mem_map] at h2
           rw [visible.eq_2]
           rw [hx]
-          simp only [hi, if_true]
-          cases hin : (if covers l q = true then none else visible (newestFirst layers k) q) with
-          | none => simp [obsOf]
-          | some m =>
-            by_cases hk : m.kind = .dir
-            · simp only [hk, if_true, obsOf]
-              by_cases hc : covers l q = true
-              · simp [hc] at hin
-              · simp [hc] at hin
-                rw [visible_dir_synthetic _ q m hnoexp hin hk]; rfl
-            · simp [hk, obsOf]
+          by_cases hr : realImplied l q = true
+          · have hnoexp : ∀ x ∈ newestFirst layers k, explicitDirAt x.2 q = false := by
+              intro x hx'
+              have := h2 x.2 ⟨x, hx', rfl⟩
+              simpa [hr] using this
+            simp only [hr, if_true]
+            cases hin : (if covers l q = true then none else visible (newestFirst layers k) q) with
+            | none => simp [obsOf]
+            | some m =>
+              by_cases hk : m.kind = .dir
+              · simp only [hk, if_true, obsOf]
+                by_cases hc : covers l q = true
+                · simp [hc] at hin
+                · simp [hc] at hin
+                  rw [visible_dir_synthetic _ q m hnoexp hin hk]; rfl
+              · simp [hk, obsOf]
+          · have hrf : realImplied l q = false := by cases hh : realImplied l q <;> simp_all
+            have hwi : whImplied l q = true := by
+              rw [implied_split, hrf] at hi; simpa using hi
+            have hnoreal : ∀ x ∈ newestFirst layers k, explicitRealAt x.2 q = false := by
+              intro x hx'
+              have := h2 x.2 ⟨x, hx', rfl⟩
+              simpa [hrf] using this
+            have hc : covers l q = false := by
+              cases hcc : covers l q with
+              | false => rfl
+              | true =>
+                obtain ⟨b, hb, hbl, hub⟩ := covers_blocker hnoopq habs hcc
+                have := hnub b hb hbl e he
+                rw [isUnder_trans hub hu] at this; cases this
+            simp only [hrf, hc, Bool.false_eq_true, if_false, hwi, if_true]
+            cases hv : visible (newestFirst layers k) q with
+            | none => simp [obsOf]
+            | some m => simp only [obsOf]; rw [visible_synthetic _ q m hnoreal hv]; rfl
         · -- the layer says nothing about q itself
           rw [hm]
           have hx : explicitReal k l q = none := explicitReal_none_of_absent k habs
-          rw [visible.eq_2]
-          rw [hx]
-          simp only [hi, Bool.false_eq_true, if_false]
+          rw [implied_split, Bool.or_eq_false_iff] at hi
+          have hvis_eq : visible ((k, l) :: newestFirst layers k) q =
+              if covers l q = true then none else visible (newestFirst layers k) q := by
+            rw [visible.eq_2, hx]
+            simp only [hi.1, hi.2, Bool.false_eq_true, if_false]
+            by_cases hc : covers l q = true
+            · simp [hc]
+            · simp only [hc, if_false]; cases visible (newestFirst layers k) q <;> rfl
+          rw [hvis_eq]
           by_cases hc : covers l q = true
           · simp only [hc, if_true, obsOf]
             obtain ⟨b, hb, hbl, hu⟩ := covers_blocker hnoopq habs hc
